@@ -5,7 +5,22 @@ package dpt
 
 import (
 	"fmt"
+	"math"
 )
+
+// scaleV16 converts a scaled value to the 16-bit wire integer: rounded to the nearest step
+// and saturated at the bounds of the format.
+func scaleV16(value float32, factor float64) int16 {
+	v := math.Round(float64(value) * factor)
+
+	if v > math.MaxInt16 {
+		return math.MaxInt16
+	} else if v < math.MinInt16 {
+		return math.MinInt16
+	}
+
+	return int16(v)
+}
 
 // DPT_8001 represents DPT 8.001 / Counter.
 type DPT_8001 int16
@@ -49,7 +64,7 @@ func (d DPT_8002) String() string {
 type DPT_8003 float32
 
 func (d DPT_8003) Pack() []byte {
-	return packV16(int16(d * 100))
+	return packV16(scaleV16(float32(d), 100))
 }
 
 func (d *DPT_8003) Unpack(data []byte) error {
@@ -76,7 +91,7 @@ func (d DPT_8003) String() string {
 type DPT_8004 float32
 
 func (d DPT_8004) Pack() []byte {
-	return packV16(int16(d * 10))
+	return packV16(scaleV16(float32(d), 10))
 }
 
 func (d *DPT_8004) Unpack(data []byte) error {
@@ -160,7 +175,7 @@ func (d DPT_8007) String() string {
 type DPT_8010 float32
 
 func (d DPT_8010) Pack() []byte {
-	return packV16(int16(d * 100))
+	return packV16(scaleV16(float32(d), 100))
 }
 
 func (d *DPT_8010) Unpack(data []byte) error {
